@@ -1,5 +1,6 @@
 """C03  One result per request, in request order, with failures isolated."""
 from vlib.ob import Registry
+from vlib.sym import concrete
 from vlib import scen, chplugin
 from vlib.ref import values as V
 from vlib.ref import codec as R
